@@ -1,0 +1,21 @@
+//go:build verif
+
+package types
+
+// Contracts for the deductive checker in /verif (comment-only; compiled only with -tags verif).
+
+/*@
+func (*Params).IsBaseFeeEnabled
+    inline
+
+// Validate returning nil establishes the parameter invariant the base-fee code relies on.
+func (Params).Validate
+    ensures valid: result == nil ==> (p.BaseFeeChangeDenominator != 0 && p.ElasticityMultiplier != 0
+            && p.BaseFee >= 0 && p.EnableHeight >= 0
+            && p.MinGasPrice >= 0 && p.MinGasMultiplier >= 0 && p.MinGasMultiplier <= dec_one())
+
+func validateMinGasMultiplier
+    inline
+func validateMinGasPrice
+    inline
+@*/
